@@ -250,6 +250,10 @@ func Edits(d *Dialect) []Edit {
 		{"col_null_to_notnull", []string{"col:d"}, func(s *schema.Schema) { C(T(s, "t"), "d").Type.Null = false }, []string{mt("ModifyColumn(d)[null]")}},
 		{"col_type", []string{"col:d"}, func(s *schema.Schema) { C(T(s, "t"), "d").Type.Type = d.BigInt() }, []string{mt("ModifyColumn(d)[type]")}},
 		{"col_default_changed", []string{"col:b"}, func(s *schema.Schema) { C(T(s, "t"), "b").Default = &schema.Literal{V: "'b'"} }, []string{mt("ModifyColumn(b)[default]")}},
+		// a raw default expression whose text holds the template markers of HCL.
+		{"col_default_raw_expr_with_template_markers", []string{"col:b"}, func(s *schema.Schema) {
+			C(T(s, "t"), "b").Default = &schema.RawExpr{X: "concat('${', 'x %{y}')"}
+		}, []string{mt("ModifyColumn(b)[default]")}},
 		{"col_default_removed", []string{"col:b"}, func(s *schema.Schema) { C(T(s, "t"), "b").Default = nil }, []string{mt("ModifyColumn(b)[default]")}},
 		{"col_default_added", []string{"col:d"}, func(s *schema.Schema) { C(T(s, "t"), "d").Default = &schema.Literal{V: "5"} }, []string{mt("ModifyColumn(d)[default]")}},
 		// a non-integer numeric default with more digits than a float prints by default.
@@ -494,6 +498,9 @@ func Edits(d *Dialect) []Edit {
 			Edit{"index_type", []string{"idx:idx_d"}, func(s *schema.Schema) {
 				I(T(s, "t"), "idx_d").Attrs = []schema.Attr{&mysql.IndexType{T: "HASH"}}
 			}, []string{mt("ModifyIndex(idx_d)[attr]")}},
+			Edit{"enum_value_with_template_markers", []string{"col:e"}, func(s *schema.Schema) {
+				C(T(s, "t"), "e").Type.Type = &schema.EnumType{T: "enum", Values: []string{"x", "y", "${c} %{d}"}}
+			}, []string{mt("ModifyColumn(e)[type]")}},
 			Edit{"enum_values", []string{"col:e"}, func(s *schema.Schema) {
 				C(T(s, "t"), "e").Type.Type = &schema.EnumType{T: "enum", Values: []string{"x", "y", "z"}}
 			}, []string{mt("ModifyColumn(e)[type]")}},
